@@ -71,14 +71,15 @@ def gen_histories(n, length, seed, scratch, has_file, budgets=('zero', 'one', 'b
     return out[:n], res
 
 
-def history_to_cmds(h, n_batch, n_eff_small=40):
+def history_to_cmds(h, n_batch, n_eff_small=8, n_eff_large=60):
     """Driver.tla command records -> history.run_history commands."""
     cmds = []
     for c in h:
         op, arg = c['op'], c['arg']
         if op == 'run':
             b = arg['budget']
-            kw = dict(n_shell=int(arg['nShell']), discard_exploration=bool(arg['discard']), n_eff=n_eff_small)
+            kw = dict(n_shell=int(arg['nShell']), discard_exploration=bool(arg['discard']),
+                      n_eff=n_eff_small if arg.get('nEff', 'large') == 'small' else n_eff_large)
             if arg['timeout0']:
                 kw['timeout'] = 0.0
             if b == 'zero':
@@ -107,6 +108,51 @@ def history_to_cmds(h, n_batch, n_eff_small=40):
 
 FULL = [['run', dict(n_eff=60, n_like_rel=150 * 4, discard_exploration=True)], ['posterior'],
         ['toggle', False], ['posterior']]
+
+
+def R(budget='inf', n_shell=1, n_eff='large', discard=False, timeout0=False):
+    return dict(op='run', arg=dict(budget=budget, nShell=n_shell, nEff=n_eff, discard=discard, timeout0=timeout0))
+
+
+def T(v):
+    return dict(op='toggle', arg=v)
+
+
+P = dict(op='posterior', arg='')
+RES = dict(op='resume', arg='')
+
+
+def O(a):
+    return dict(op='observe', arg=a)
+
+
+# Hand-written Driver.tla behaviours (each is a behaviour of the spec: same command alphabet) that put commands
+# at the boundaries the properties single out: toggles before / right after the end of exploration, several run()
+# calls inside the sampling phase, resumes in both phases, view switched by attribute vs by run() argument.
+SCENARIOS = [
+    [R('b5'), T('T'), R('inf', discard=True), P, T('F'), P, T('T'), P],
+    [R('b5', discard=True), T('F'), R('inf', n_eff='small'), T('T'), R('b5', n_shell=6), P, R('inf', n_shell=6), P],
+    [R('inf', n_eff='small', discard=True), R('bp1', discard=True), R('b5', n_shell=6, discard=True), P, T('F'), P],
+    [R('inf', n_eff='small'), T('T'), R('b5', n_shell=25), R('inf', n_shell=25), P, T('F'), T('T'), P],
+    [R('b5'), RES, T('T'), R('inf', n_eff='small', discard=True), RES, R('b5', n_shell=6, discard=True), RES, T('F'), P],
+    [R('inf', n_eff='small', discard=True), RES, R('inf', n_shell=6, discard=True), T('bad'), P, O('occupation')],
+    [R('zero'), R('one'), R('bm1'), T('T'), T('F'), R('inf', discard=True), R('one', n_shell=25, discard=True), P],
+    [R('inf', timeout0=True), T('T'), R('inf', n_eff='small', discard=False), P, R('bp1', n_shell=25), P],
+]
+
+
+def scenario_configs(seed, filepath=True):
+    kinds = ['gauss', 'two', 'plateau', 'wrap', 'ring', 'gauss', 'plateau', 'two']
+    blobs = ['none', 'float', 'multi', 'int', 'none', 'array', 'none', 'struct']
+    cfgs = []
+    for i, h in enumerate(SCENARIOS):
+        nb = [4, 5, 2, 4, 4, 3, 4, 5][i]
+        c = dict(kind=kinds[i], blob=blobs[i], n_batch=nb, n_live=16, n_networks=1 if i in (1, 4) else 0,
+                 seed=300 + seed * 11 + i, mseed=seed, filepath=filepath, n_points_min=4, history=history_to_cmds(h, nb))
+        if c['kind'] == 'wrap':
+            c['periodic'] = [0]
+        cfgs.append(c)
+    return cfgs
 
 
 def base_matrix(seed):
@@ -254,6 +300,7 @@ def check(prop, tier, seed):
         hc, res = histories_matrix(seed, scratch, nh, 5 if tier == 'quick' else 7)
         rep.add_tlc(res, 'Driver.tla/simulate')
         cfgs += hc
+        cfgs += scenario_configs(seed)
         if tier == 'thorough':
             for r in range(1, 8):
                 cfgs += [dict(c, history=FULL) for c in base_matrix(seed + 100 * r)]
